@@ -34,6 +34,7 @@ func New(ctx context.Context) (*DB, error) {
 	}
 	// keep one connection open for the lifetime of DB so the in-memory database is not dropped
 	raw.SetMaxIdleConns(1)
+	raw.SetMaxOpenConns(1)
 	if err := raw.Ping(); err != nil {
 		return nil, err
 	}
